@@ -167,15 +167,17 @@ fn to_pattern(field: &[AttrChar]) -> Option<Pattern> {
     impl Iterator for Chars<'_> {
         type Item = PatternChar;
         fn next(&mut self) -> Option<PatternChar> {
-            for c in &mut self.inner {
+            while let Some(c) = self.inner.next() {
                 let quoted = std::mem::replace(&mut self.next_quoted, false);
                 if c.is_quoting {
                     continue;
                 } else if quoted || c.is_quoted || c.origin == Origin::HardExpansion {
                     return Some(PatternChar::Literal(c.value));
-                } else if c.value == '\\' {
+                } else if c.value == '\\' && self.inner.clone().any(|c| !c.is_quoting) {
                     // An unquoted backslash resulting from an expansion escapes
                     // the next character. It is not part of the pattern itself.
+                    // (A backslash that is not followed by any character has
+                    // nothing to escape and remains an ordinary character.)
                     self.next_quoted = true;
                     continue;
                 } else {
@@ -428,6 +430,20 @@ mod tests {
         let mut i = glob(&mut env, f);
         assert_eq!(i.next().unwrap().unwrap().value, "a");
         assert_eq!(i.next().unwrap().unwrap().value, "ab");
+        assert_eq!(i.next(), None);
+    }
+
+    #[test]
+    fn trailing_backslash_is_retained() {
+        let mut env = env_with_dummy_files(["a"]);
+        let f = dummy_attr_field("\\");
+        let mut i = glob(&mut env, f);
+        assert_eq!(i.next().unwrap().unwrap().value, "\\");
+        assert_eq!(i.next(), None);
+
+        let f = dummy_attr_field("a\\");
+        let mut i = glob(&mut env, f);
+        assert_eq!(i.next().unwrap().unwrap().value, "a\\");
         assert_eq!(i.next(), None);
     }
 
